@@ -273,10 +273,16 @@ def r1_sqlite(ctx):
         if m not in per:
             continue
         found = False
+        helper_execs = any(callee(t) == 'sqlx_core::query::Query::execute' for x in per[m][0] for _, t in x.calls())
         for b in per[m][0]:
             execs = [bb for bb, t in b.calls() if callee(t) == 'sqlx_core::query::Query::execute']
-            if not execs or BACKEND not in b.nroot:
+            if BACKEND not in b.nroot:
                 continue
+            if not execs:
+                # the statement is executed by a private helper of the store (entered by the interpreter): the method body is the one that awaits it
+                if not helper_execs or not b.is_coroutine or not any((callee(t) or '').startswith(SQ + '::') for _, t in b.calls()):
+                    continue
+                execs = [bb for bb, t in b.calls() if (callee(t) or '').startswith(SQ + '::')][:1]
             found = True
             sem = RowsSem(ctx.fb, '0')
             try:
